@@ -3,12 +3,12 @@ CONSTANTS
   Pre <- NoPre
   FailingGov = FALSE
   MaxHeight = 3
-  MaxTx = 6
+  MaxTx = 4
   MaxFail = 1
   MaxReg = 2
-  MaxRec = 5
+  MaxRec = 4
   GenCap <- SmallCap
-  Presets <- PresetsFull
+  Presets <- PresetsQuick
 VIEW View
 INVARIANT Inv
 PROPERTY StepProps
